@@ -16,8 +16,8 @@ def run(ctx, res):
     codemap_writers(ctx, res)
     # spans are byte offsets: every entry point feeds the core characters whose recorded length is their
     # UTF-8 length (C01.entry, shared rule)
-    res.rules_run.append("C01.entry (adaptors record len_utf8 for every character; shared with C01)")
-    C01.entry_rule(ctx, res)
+    res.rules_run.append("C05.entry (every entry point starts the parser at offset 0, its adaptors record len_utf8 for every character, and the code map returned is the parser's)")
+    C01.entry_rule(ctx, res, rule="C05.entry")
 
 
 def position_writers(ctx, res):
